@@ -3,7 +3,7 @@
 # Applies a change to a scratch worktree of /repo (never to /repo itself),
 # runs the property's check against it and removes the worktree.
 set -u
-PATCH=$1; PROP=$2; BUDGET=${3:-15}
+PATCH=$(realpath "$1"); PROP=$2; BUDGET=${3:-15}
 WT=$(mktemp -d /tmp/mut-XXXXXX)
 git -C /repo worktree add -q --detach "$WT" HEAD >/dev/null 2>&1 || { echo "worktree failed"; exit 3; }
 cleanup() { git -C /repo worktree remove --force "$WT" >/dev/null 2>&1; rm -rf "$WT"; }
